@@ -159,7 +159,19 @@ def check(case):
     elif kind == "rerun":
         check_rerun(res, case)
     elif kind == "program":
-        prog, ref, run = runcheck.run_and_ref(case["program"])
+        if case.get("rebuilt"):
+            # behave driven as a library with a model BUILT through the public constructors: every Rule is created WITH its
+            # scenarios (Rule(..., scenarios=[...])) and then handed to Feature.add_rule() -- not the order of the parser
+            from ..harness import parse_program, run_program
+            from ..program import normalize as _normalize
+            prog = runcheck.resolve_faults(case["program"])
+            _normalize(prog)
+            ref = refmodel.simulate(prog)
+            parsed, _texts = parse_program(prog)
+            run = run_program(prog, features=[rebuild_feature(f) for f in parsed])
+            res.label("model-built-through-constructors")
+        else:
+            prog, ref, run = runcheck.run_and_ref(case["program"])
         if run.escaped is not None:
             res.fail("C02.escape", "exception escaped run(): %r" % (run.escaped,))
             return res
@@ -183,6 +195,23 @@ def check(case):
     else:
         raise ValueError(kind)
     return res
+
+
+def rebuild_feature(feature):
+    from behave.model import Feature, Rule
+    new = Feature(feature.filename, feature.line, feature.keyword, feature.name, tags=list(feature.tags),
+                  description=list(feature.description), background=feature.background, language=feature.language)
+    new.parser = getattr(feature, "parser", None)
+    for item in feature.run_items:
+        if isinstance(item, Rule):
+            # (a rule without own Background section got a step-less default one from the parser, located at the rule's line)
+            own_background = item.background if (item.background is not None and item.background.line != item.line) else None
+            rule = Rule(item.filename, item.line, item.keyword, item.name, tags=list(item.tags),
+                        description=list(item.description), scenarios=list(item.run_items), background=own_background)
+            new.add_rule(rule)
+        else:
+            new.add_scenario(item)
+    return new
 
 
 def check_rerun(res, case):
@@ -296,13 +325,24 @@ def explore(rec):
     rec.hyp("nested-steps", nested_program(), 1200 if quick else 30000)
     rec.hyp("random-programs", gen.program_st(faults=False, typed=True).map(lambda p: {"kind": "program", "program": p}),
             1500 if quick else 40000)
+    def rebuilt_case(p):
+        # (plain scenarios only inside the re-assembled rules: WHEN an outline that is handed over inside a Rule builds its
+        # rows is a matter of the order of the API calls, not of the statement)
+        for f in p["features"]:
+            for it in f["items"]:
+                if it["k"] == "r":
+                    it["items"] = [sub for sub in it["items"] if sub["k"] == "s"]
+        return {"kind": "program", "program": p, "rebuilt": True}
+    rec.hyp("models-built-through-constructors", gen.program_st(faults=False, max_features=2, min_rules=1, max_rules=2,
+                                                                 big_dims=["items", "steps", "tags", "rules", "ruleitems"]).map(rebuilt_case),
+            600 if quick else 15000)
 
 
 def required_labels(tier):
     req = ["depth:0", "depth:1", "depth:2", "row", "plain", "wip", "dry", "async", "cont", "rerun", "program",
            "bg_placeholders", "first:convert_key", "one-text-several-step-types", "step-hook-raises:before_step",
            "step-hook-raises:after_step", "step-hook-raises:passing-step-with-followers",
-           "step-function-returns-a-value", "nested-steps", "nested-steps:pending-sub-step-with-followers", "cont+dry:undefined-step-with-followers"]
+           "step-function-returns-a-value", "model-built-through-constructors", "nested-steps", "nested-steps:pending-sub-step-with-followers", "cont+dry:undefined-step-with-followers"]
     for o in OUTCOMES:
         req += ["first:" + o, "middle:" + o, "last:" + o]
     return req
